@@ -283,6 +283,9 @@ func (s *Stream) Stop() {
 
 	close(s.done)
 
+	// One grace budget for the whole Stop: the join below and the CEP flush share it.
+	deadline := time.Now().Add(defaultStopGrace)
+
 	// Stop window operations first to prevent new window triggers
 	if s.Window != nil {
 		s.Window.Stop()
@@ -305,7 +308,7 @@ func (s *Stream) Stop() {
 	// a user sink that blocks forever cannot be interrupted (Go has no goroutine
 	// kill), so it is abandoned after the grace rather than hanging the caller
 	// (e.g. a rulego component Destroy).
-	s.waitLifecycle()
+	s.waitLifecycle(time.Until(deadline))
 
 	// 停止 CEP sweeper：数据处理 goroutine 已 join，不再有并发 Process；紧接的 Flush 看到静止引擎。
 	if s.cep != nil {
@@ -316,7 +319,7 @@ func (s *Stream) Stop() {
 	// 已退出，故同步派发到 sink（不经 pool）——若在 close(done) 后仍走 pool，worker 已退出会
 	// 使 Flush 结果丢失。
 	if s.cep != nil {
-		s.emitCepFlushSync(s.projectCep(s.cep.engine.Flush()))
+		s.emitCepFlushSync(s.projectCep(s.cep.engine.Flush()), time.Until(deadline))
 	}
 
 	// Release table sources (custom sources may own background refresh goroutines).
@@ -386,7 +389,7 @@ const defaultStopGrace = 5 * time.Second
 // waitLifecycle blocks until every tracked goroutine exits or the grace period
 // elapses. If the grace elapses a sink is likely blocked; its goroutine (and the
 // watcher goroutine spawned here) continue until the sink returns.
-func (s *Stream) waitLifecycle() {
+func (s *Stream) waitLifecycle(grace time.Duration) {
 	drained := make(chan struct{})
 	go func() {
 		s.lifecycle.Wait()
@@ -394,7 +397,7 @@ func (s *Stream) waitLifecycle() {
 	}()
 	select {
 	case <-drained:
-	case <-time.After(defaultStopGrace):
+	case <-time.After(grace):
 		s.log.Warn("Stream.Stop: goroutines did not exit within %s; a sink may be blocked", defaultStopGrace)
 	}
 }
@@ -433,12 +436,23 @@ func (s *Stream) emitCepResults(results []map[string]any) {
 
 // emitCepFlushSync 在 Stop 末尾同步派发 CEP Flush 输出。此时 worker pool 已随 done 退出，
 // 故在 Stop goroutine 内直接调用 sink（同步、不经 pool），避免未闭合匹配的 Flush 结果丢失。
-func (s *Stream) emitCepFlushSync(results []map[string]any) {
+func (s *Stream) emitCepFlushSync(results []map[string]any, grace time.Duration) {
 	if len(results) == 0 {
 		return
 	}
 	s.sendResultForFlush(results) // 尽量送达 resultChan（短阻塞），不静默丢
-	s.invokeSinksInline(results)
+	// The sinks run on a helper goroutine: a sink that blocks must not hold Stop
+	// beyond its grace (it is abandoned, like a blocked sink of the pipeline).
+	delivered := make(chan struct{})
+	go func() {
+		defer close(delivered)
+		s.invokeSinksInline(results)
+	}()
+	select {
+	case <-delivered:
+	case <-time.After(grace):
+		s.log.Warn("Stream.Stop: flushed MATCH_RECOGNIZE results not delivered within %s; a sink may be blocked", defaultStopGrace)
+	}
 }
 
 // invokeSinksInline 在当前 goroutine 同步调用全部 sinks 与 syncSinks（带 recover），
